@@ -348,11 +348,25 @@ def r4_orientation(ctx):
                       f"{what} are read from the {'column' if axis == 1 else 'row'} of the node: with edges written at [parent, child] that yields the {'ancestors' if what == 'children' else 'descendants'} instead")
 
 
+def r5_proxy(ctx):
+    """sorted_variables_by_type hands out FilteredMappingProxy views of the graph: a view lists exactly the names it was given (membership
+    tests of the underlying collection - e.g. UserDict.__contains__ of NamedVariables, which ignores the automatic variables - have no say)."""
+    ctx.rule("C15.R5", "FilteredMappingProxy iterates exactly its subset (per-type listings = the graph's variables of that type)", 2)
+    from ..astq import canon_lines
+    it = ctx.ix.func("leaspy.utils.filtered_mapping_proxy", "FilteredMappingProxy.__iter__", "C15.R5")
+    ln = ctx.ix.func("leaspy.utils.filtered_mapping_proxy", "FilteredMappingProxy.__len__", "C15.R5")
+    ok_it = canon_lines(it.node) in (["return iter($0.subset)"], ["yield from $0.subset"])
+    ok_ln = canon_lines(ln.node) == ["return len($0.subset)"]
+    ctx.check(ok_it, "C15.R5", it, it.node, "iterates the subset it was given", f"FilteredMappingProxy.__iter__ is `{'; '.join(canon_lines(it.node))[:90]}`: the per-type listing can drop (or reorder) variables of the graph")
+    ctx.check(ok_ln, "C15.R5", ln, ln.node, "length of the subset", f"FilteredMappingProxy.__len__ is `{'; '.join(canon_lines(ln.node))[:90]}`: not the number of names it was given", construct="__len__")
+
+
 def rules(ctx):
     r1_validators(ctx)
     r2_determinism(ctx)
     r3_shipped_graphs(ctx)
     r4_orientation(ctx)
+    r5_proxy(ctx)
     ctx.trust("sorted() on strings; SimpleQueue FIFO; torch boolean indexing / nonzero order")
     ctx.note("NamedVariables._latent_ind_vars is a set: the order of the float sum in nll_regul_ind_sum_ind may differ between processes (hash seed) - outside this property's statement")
 
